@@ -259,7 +259,8 @@ def match_known(known, verdict_event):
     for k in known:
         ok = True
         for key, val in k.get("match", {}).items():
-            got = verdict_event.get(key, verdict_event.get("event", {}).get(key, None))
+            ev = verdict_event.get("event", {})
+            got = verdict_event.get(key, ev.get(key, ev.get("c", {}).get(key, None) if isinstance(ev.get("c"), dict) else None))
             if isinstance(val, dict) and "in" in val:
                 if got not in val["in"]:
                     ok = False
